@@ -99,6 +99,9 @@ def _tasks():
         # abort the whole workflow (the device of redun/tests/test_db_query.py::test_status): jobs that are in
         # flight never get their end recorded
         scheduler.reject_job(None, RuntimeError("workflow killed"))
+        # a scheduler task must return a promise (a second evaluation of an equal expression chains on it); it never settles
+        from redun.promise import Promise
+        return Promise()
 
     @task(namespace="c33v")
     def slow_ok(x):
